@@ -869,12 +869,13 @@ void as_struct_list_initialisation()
   vf::set_entry(e);
   namespace sk = fcppt::parse::skipper;
   auto const two = p::as_struct<std::vector<int>>(p::int_<int>{} >> p::literal{','} >> p::int_<int>{});
-  auto const three = p::as_struct<std::vector<int>>(p::int_<int>{} >> p::literal{','} >> p::int_<int>{} >> p::literal{','} >> p::int_<int>{});
+  // (two elements only: with three, a tree that spells the construction Result(t_1,t_2,t_3) no longer compiles, and a
+  // harness that does not build says nothing)
   struct sample
   {
     char const *text;
     std::vector<int> want;
-  } const samples[] = {{"3 , 7", {3, 7}}, {"2,2", {2, 2}}, {"0 ,5", {0, 5}}, {"1,2,3", {1, 2, 3}}, {"4 , 0 , 4", {4, 0, 4}}};
+  } const samples[] = {{"3 , 7", {3, 7}}, {"2,2", {2, 2}}, {"0 ,5", {0, 5}}, {"1 ,  9", {1, 9}}, {"4,0", {4, 0}}};
   for (sample const &sm : samples)
   {
     if (!vf::begin_case("as_struct<std::vector<int>> on \"%s\"", sm.text))
@@ -889,10 +890,7 @@ void as_struct_list_initialisation()
                       std::string("input ") + sm.text + ": " + std::to_string(r.get_success_unsafe().size()) + " elements, documented Result{t_1,...,t_n} has " + std::to_string(sm.want.size()));
       VF_COUNT("static/value/as_struct-list-initialisation");
     };
-    if (sm.want.size() == 2)
-      check(two);
-    else
-      check(three);
+    check(two);
   }
 }
 
